@@ -992,10 +992,10 @@ def check_c20(tier, seed):
                             models=count_lines(fam)),
         conformance=dict(tree_models=len(lines), registry_scenarios=2 * runs, backends=['mem', 'sqlite'],
                          deviations=len(violations)),
-        rule='every model of the family: engine tree == Flatten(model) (or both reject), table well formed, YAML/JSON '
+        rule='every model of the family, as written, with generated ids, and rebuilt from the kept model: engine tree == Flatten(model) (or both reject), table well formed, YAML/JSON '
              'round trip equal, parsed model keeps every value of its text; registry: seeded random deploy/rm/start sequences'),
         len(violations), ['round-trip and text-fidelity equality are decided in the harness (serde values), TLC requires the flags',
-                          'generated (empty) ids are not part of the tree comparison'])
+                          'generated ids: every accepted model is also built with the ids nothing refers to left to the engine, and rebuilt from the model that tree keeps; both tables are renamed position by position to the written ids before TLC compares them with Tree.tla (a run-time reload of a process with generated ids is not driven)'])
     for what, path in violations[:5]:
         print('VIOLATION property=%s replay=%s' % (prop, path))
     return 1 if violations else 0
